@@ -7,6 +7,7 @@ import (
 	"io"
 	"strings"
 
+	abci "github.com/cometbft/cometbft/abci/types"
 	sdk "github.com/cosmos/cosmos-sdk/types"
 
 	custommint "github.com/sentinel-official/hub/v12/x/mint"
@@ -20,7 +21,11 @@ type Runner struct {
 	Out     *bufio.Writer
 	NoDump  bool
 	NoEvent bool
-	prev    []string
+	// TxMode: every `tx` operation that can be signed goes through the application's DeliverTx (txmode.go)
+	TxMode bool
+	TxStat TxStats
+	info   string // tx mode: the `T` line of the operation being emitted
+	prev   []string
 }
 
 // Delta is the difference of two sorted line lists: "-line" for lines only in old, "+line" for
@@ -51,12 +56,16 @@ func Delta(old, cur []string) []string {
 }
 
 func NewRunner(w io.Writer) *Runner {
-	return &Runner{Cfg: &Config{Keyed: map[string]int{}}, Out: bufio.NewWriterSize(w, 1<<20)}
+	return &Runner{Cfg: &Config{Keyed: map[string]int{}}, Out: bufio.NewWriterSize(w, 1<<20), TxStat: TxStats{Fallback: map[string]int{}}}
 }
 
 func (r *Runner) emit(op *Op, result string, events []string, dump bool) {
 	fmt.Fprintf(r.Out, "> %s\n", op.Raw)
 	fmt.Fprintf(r.Out, "R %s\n", result)
+	if r.info != "" {
+		fmt.Fprintln(r.Out, r.info)
+		r.info = ""
+	}
 	if !r.NoEvent {
 		for _, e := range events {
 			fmt.Fprintln(r.Out, e)
@@ -148,7 +157,13 @@ func (r *Runner) Exec(line string) error {
 		if berr != nil {
 			return fmt.Errorf("cannot build %q: %v", op.Raw, berr)
 		}
-		evs, class := s.Deliver(msg)
+		var evs []abci.Event
+		var class string
+		if r.TxMode {
+			evs, class, r.info = s.DeliverTx(msg, &r.TxStat)
+		} else {
+			evs, class = s.Deliver(msg)
+		}
 		r.emit(op, class, CanonEvents(evs), true)
 	case "gov":
 		r.emit(op, s.Gov(op), nil, true)
